@@ -90,12 +90,18 @@ class StringContainsToConcat:
     """Replace ``str.contains`` by concatenation."""
 
     def filter(self, node):
-        return node.has_ident() and node.get_ident() == 'str.contains'
+        # the names of the fresh variables are derived from the first
+        # argument, which thus needs to be a symbol
+        return (node.has_ident() and node.get_ident() == 'str.contains'
+                and len(node) == 3 and node[1].is_leaf()
+                and not is_string_const(node[1]))
 
     def global_mutations(self, node, input_):
         var = node[1]
         k1 = f'{var}_prefix'
         k2 = f'{var}_suffix'
+        if is_declared(k1) or is_declared(k2):
+            return []
         vars = [
             Node('declare-const', k1, 'String'),
             Node('declare-const', k2, 'String'),
